@@ -1721,10 +1721,24 @@ is the replacement, followed by the rest of the template -/
 theorem literal_holds (r : List Char) (h : literalSafe r = true) :
     interpolatedLiteral r = .lit r [' ', 'i', 'n', 's', 't', 'e', 'a', 'd', '.'] := by
   obtain ⟨hne, hbt, hbs, hnul, hlb, hws, ⟨c0, hc0, hs0⟩, ⟨cl, hcl, hsl⟩⟩ := literalSafe_spec h
-  have hmap : r.map convertWs = r := by
+  have hmap : (r.map rstPreprocess).map convertWs = r := by
+    rw [List.map_map]
     conv => rhs; rw [← List.map_id r]
     apply List.map_congr_left
-    intro c hc; have := hws c hc; simp [convertWs, this]
+    intro c hc
+    have := hws c hc
+    have hnb : isLineBreak c = false := by
+      rw [List.any_eq_false] at hlb
+      simpa using hlb c hc
+    have hpre : rstPreprocess c = c := by
+      simp only [isLineBreak, Bool.or_eq_false_iff, Bool.and_eq_false_iff, decide_eq_false_iff_not,
+        beq_eq_false_iff_ne, ne_eq] at hnb
+      unfold rstPreprocess
+      simp only
+      split
+      · omega
+      · rfl
+    simp [hpre, convertWs, this]
   have hstart : literalStartOk (r ++ tailText) = true := by
     cases r with
     | nil => exact absurd rfl hne
@@ -2024,9 +2038,24 @@ theorem literal_holds_ok (x : List Char) (h : LitOk x) :
           beq_eq_false_iff_ne, ne_eq] at hs
         omega
     · rfl
-  have hmap : x.map convertWs = x := by
+  have hpre : ∀ c ∈ x, rstPreprocess c = c := by
+    intro c hc
+    have := (h.clean c hc).1
+    unfold rstPreprocess
+    simp only
+    split
+    · rename_i h6
+      exfalso
+      rcases this with hs | hs
+      · subst hs; revert h6; decide
+      · simp only [isPySpace, Bool.or_eq_false_iff, Bool.and_eq_false_iff, decide_eq_false_iff_not,
+          beq_eq_false_iff_ne, ne_eq] at hs
+        omega
+    · rfl
+  have hmap : (x.map rstPreprocess).map convertWs = x := by
+    rw [List.map_map]
     conv => rhs; rw [← List.map_id x]
-    exact List.map_congr_left (fun c hc => by simp [hcw c hc])
+    exact List.map_congr_left (fun c hc => by simp [hpre c hc, hcw c hc])
   have hlb : x.any isLineBreak = false := by
     rw [List.any_eq_false]
     intro c hc hb
